@@ -20,9 +20,17 @@
  *  ct2 <state> <rts> <wts> <kaidle> <wi> <now> [<sstate>,<bodypending>,<ri> ...]
  *      h2_check_timeout() on a hand-built HTTP/2 connection with the listed streams
  *   -> <changed> <state> <is_readable>
- *  lc <cur_fds> <lowat> <hiwat> <lim_conns> <sockets_disabled>
+ *  lc <cur_fds> <lowat> <hiwat> <lim_conns> <sockets_disabled> [<max_conns>]
  *      the load-check step of server_main_loop() (server_overload_check / server_load_check)
  *   -> <sockets_disabled>
+ *  h2d <max_request_size kB> <content-length | -1> <alen>[e] ...
+ *      h2_recv_data() on one open stream of a real (h2_init_con) connection, one DATA frame per token
+ *      (e = END_STREAM), the stream's state carried from frame to frame
+ *   -> per frame <bytes_in>,<http_status>,<o|c stream open/closed>,<RST_STREAM code sent | ->
+ *  h2h <max_request_field_size> <klen>,<vlen> ...
+ *      http_request_parse_header() as h2_parse_headers_frame() calls it, field by field (the first four
+ *      are :method :scheme :path :authority)
+ *   -> 0 | <status>@<index of the field that was refused>
  *  sc <cfg> <op> ...
  *      cfg = eh=<poll|select|linux-sysepoll>,mc=<max conns>,mf=<max fds>,ri=,wi=,ka=,kr=,rs=<max-request-size kB>,
  *            fs=<max-request-field-size>,gt=<graceful-shutdown-timeout>,cf=<descriptors in use at start>
@@ -168,7 +176,7 @@ static int sink_event_set(fdevents *ev, fdnode *fdn, int events) { (void)ev; (vo
 static int sink_event_del(fdevents *ev, fdnode *fdn) { (void)ev; (void)fdn; return 0; }
 
 static void op_lc(void) {
-    if (ltv_ntok != 6) { puts("bad-op"); return; }
+    if (ltv_ntok != 6 && ltv_ntok != 7) { puts("bad-op"); return; }
     static server srv;
     static struct fdevents ev;
     memset(&srv, 0, sizeof(srv));
@@ -184,6 +192,7 @@ static void op_lc(void) {
     srv.max_fds_hiwat = atoi(ltv_tok[3]);
     srv.lim_conns = (uint32_t)strtoul(ltv_tok[4], NULL, 10);
     srv.sockets_disabled = atoi(ltv_tok[5]);
+    srv.srvconf.max_conns = (unsigned short)(7 == ltv_ntok ? atoi(ltv_tok[6]) : 0);
     /* the branch of server_main_loop() taken when no graceful shutdown is in progress */
     if (srv.sockets_disabled)
         server_overload_check(&srv);
@@ -192,8 +201,167 @@ static void op_lc(void) {
     printf("%d\n", srv.sockets_disabled);
 }
 
+/* ============================================================ h2d / h2h */
+static server dsrv;
+static connection dcon;
+static request_config dconf;
+static int d_nr(connection *c, chunkqueue *cq, off_t max) { (void)c; (void)cq; (void)max; return 0; }
+static int d_nw(connection *c, chunkqueue *cq, off_t max) { (void)c; (void)cq; (void)max; return 0; }
+static void direct_init(void) {
+    static int done;
+    if (done) return;
+    done = 1;
+    memset(&dsrv, 0, sizeof(dsrv));
+    dsrv.config_context = array_init(1);
+    dsrv.tmp_buf = buffer_init();
+    dsrv.errh = fdlog_init(NULL, open("/dev/null", O_WRONLY), FDLOG_FD);
+    log_set_global_errh(dsrv.errh, 0);
+    memset(&dconf, 0, sizeof(dconf));
+    dconf.errh = dsrv.errh;
+    dconf.max_request_field_size = 8192;
+    dconf.http_parseopts = 9567;
+    dconf.h2proto = 2;
+    dconf.max_keep_alive_idle = 5;
+    request_config_set_defaults(&dconf);
+    chunkqueue_set_tempdirs_default(NULL, 0);
+    memset(&dcon, 0, sizeof(dcon));
+    dcon.srv = &dsrv;
+    dcon.plugin_slots = calloc(256, sizeof(uint16_t));
+    dcon.plugin_ctx = calloc(8, sizeof(void *));
+    dcon.fd = -1;
+    dcon.proto_default_port = 80;
+    buffer_copy_string_len(&dcon.dst_addr_buf, CONST_STR_LEN("127.0.0.1"));
+    request_init_data(&dcon.request, &dcon, &dsrv);
+    dcon.read_queue = &dcon.request.read_queue;
+    dcon.write_queue = &dcon.request.write_queue;
+    dcon.network_read = d_nr;
+    dcon.network_write = d_nw;
+    log_monotonic_secs = 1000;
+}
+static void dcon_begin(void) {
+    request_st * const h2r = &dcon.request;
+    chunkqueue_reset(dcon.read_queue);
+    chunkqueue_reset(dcon.write_queue);
+    dcon.read_queue->bytes_in = dcon.read_queue->bytes_out = 0;
+    dcon.write_queue->bytes_in = dcon.write_queue->bytes_out = 0;
+    dcon.request_count = 0;
+    h2r->state = CON_STATE_READ;
+    h2r->http_version = HTTP_VERSION_2;
+    h2_init_con(h2r, &dcon);
+    chunkqueue_reset(dcon.write_queue);
+}
+static void dcon_end(void) {
+    request_st * const h2r = &dcon.request;
+    if (dcon.hx) {
+        h2con * const h2c = (h2con *)dcon.hx;
+        for (uint32_t i = 0; i < h2c->rused; ++i) h2c->r[i]->http_status = 0;   /*(no request_done hooks)*/
+        h2r->state = CON_STATE_ERROR;
+        h2_retire_con(h2r, &dcon);
+    }
+    chunkqueue_reset(dcon.read_queue);
+    chunkqueue_reset(dcon.write_queue);
+}
+/* error code of the last RST_STREAM frame in the write queue, -1 if none; the queue is emptied */
+static int wq_take_rst(void) {
+    int code = -1;
+    chunkqueue * const cq = dcon.write_queue;
+    const off_t len = chunkqueue_length(cq);
+    if (len > 0) {
+        char *buf = malloc((size_t)len), *p = buf;
+        uint32_t l = (uint32_t)len;
+        if (chunkqueue_peek_data(cq, &p, &l, dsrv.errh, 0) >= 0)
+            for (uint32_t i = 0; i + 9 <= l; ) {
+                const uint32_t fl = ((uint32_t)(unsigned char)p[i] << 16) | ((uint32_t)(unsigned char)p[i+1] << 8) | (unsigned char)p[i+2];
+                if (p[i+3] == 3 && fl == 4 && i + 13 <= l)
+                    code = (int)(((uint32_t)(unsigned char)p[i+9] << 24) | ((uint32_t)(unsigned char)p[i+10] << 16) | ((uint32_t)(unsigned char)p[i+11] << 8) | (unsigned char)p[i+12]);
+                i += 9 + fl;
+            }
+        free(buf);
+    }
+    chunkqueue_reset(cq);
+    return code;
+}
+
+static void op_h2d(void) {
+    if (ltv_ntok < 3) { puts("bad-op"); return; }
+    direct_init();
+    dcon_begin();
+    h2con * const h2c = (h2con *)dcon.hx;
+    request_st * const r = h2_init_stream(&dcon.request, &dcon);
+    r->x.h2.id = 1;
+    r->x.h2.state = H2_STATE_OPEN;
+    r->state = CON_STATE_READ_POST;
+    r->conf.max_request_size = (uint32_t)strtoul(ltv_tok[1], NULL, 10);
+    r->conf.stream_request_body = 0;
+    r->reqbody_length = (off_t)atoll(ltv_tok[2]);
+    h2c->h2_cid = 1;
+    static unsigned char frame[9 + 70000];
+    for (int i = 3; i < ltv_ntok; ++i) {
+        char *e;
+        unsigned long alen = strtoul(ltv_tok[i], &e, 10);
+        const int es = (*e == 'e');
+        if (alen > 65535) { fputs("bad-op", stdout); break; }
+        frame[0] = (unsigned char)(alen >> 16); frame[1] = (unsigned char)(alen >> 8); frame[2] = (unsigned char)alen;
+        frame[3] = 0 /*DATA*/; frame[4] = es ? 1 : 0;
+        frame[5] = frame[6] = frame[7] = 0; frame[8] = 1;
+        memset(frame + 9, 'd', alen);
+        chunkqueue_reset(dcon.read_queue);
+        chunkqueue_append_mem(dcon.read_queue, (char *)frame, 9 + alen);
+        dcon.request.x.h2.rwin = 262144;          /* (connection window is C06's; never the limiting factor here) */
+        r->x.h2.rwin = 65535;
+        const chunk * const c = dcon.read_queue->first;
+        h2_recv_data(&dcon, (uint8_t *)(c->mem->ptr + c->offset), (uint32_t)alen);
+        const int rst = wq_take_rst();
+        printf("%s%lld,%d,%c,", i > 3 ? " " : "", (long long)r->reqbody_queue.bytes_in, r->http_status,
+               r->x.h2.state == H2_STATE_OPEN ? 'o' : 'c');
+        if (rst < 0) fputc('-', stdout); else printf("%d", rst);
+    }
+    fputc('\n', stdout);
+    chunkqueue_reset(&r->reqbody_queue);
+    dcon_end();
+}
+
+static void op_h2h(void) {
+    if (ltv_ntok < 2) { puts("bad-op"); return; }
+    direct_init();
+    dcon_begin();
+    request_st * const r = h2_init_stream(&dcon.request, &dcon);
+    r->x.h2.id = 1;
+    http_header_parse_ctx hpctx;
+    memset(&hpctx, 0, sizeof(hpctx));
+    hpctx.pseudo = 1;
+    hpctx.max_request_field_size = (uint32_t)strtoul(ltv_tok[1], NULL, 10);
+    hpctx.http_parseopts = r->conf.http_parseopts;
+    static const char * const pk[4] = { ":method", ":scheme", ":path", ":authority" };
+    static const char * const pv[4] = { "GET", "http", "/", "h" };
+    static char kb[70000], vb[70000];
+    int status = 0, at = -1;
+    for (int i = 2; i < ltv_ntok && 0 == status; ++i) {
+        unsigned int kl = 0, vl = 0;
+        if (2 != sscanf(ltv_tok[i], "%u,%u", &kl, &vl) || kl >= sizeof(kb) || vl >= sizeof(vb)) { status = -1; break; }
+        if (i - 2 < 4) {
+            if (kl != strlen(pk[i-2]) || vl != strlen(pv[i-2])) { status = -1; break; }
+            memcpy(kb, pk[i-2], kl); memcpy(vb, pv[i-2], vl);
+            hpctx.id = HTTP_HEADER_H2_UNKNOWN;
+        }
+        else {
+            if (kl < 3) { status = -1; break; }
+            memset(kb, 'a', kl); kb[0] = 'x'; kb[1] = '-';
+            memset(vb, 'v', vl);
+            hpctx.id = HTTP_HEADER_OTHER;
+        }
+        hpctx.k = kb; hpctx.v = vb; hpctx.klen = kl; hpctx.vlen = vl;
+        status = http_request_parse_header(r, &hpctx);
+        if (status) at = i - 2;
+    }
+    if (status < 0) puts("bad-op");
+    else if (status) printf("%d@%d\n", status, at);
+    else puts("0");
+    dcon_end();
+}
+
 /* ============================================================ sc */
-#define MAXCL 24
+#define MAXCL 96
 #define BIGRESP (16u << 20)
 typedef struct {
     int used, fd, accepted, eof, rderr, closed;
@@ -659,6 +827,8 @@ int main(void) {
         if (0 == strcmp(ltv_tok[0], "ct1")) op_ct1();
         else if (0 == strcmp(ltv_tok[0], "ct2")) op_ct2();
         else if (0 == strcmp(ltv_tok[0], "lc")) op_lc();
+        else if (0 == strcmp(ltv_tok[0], "h2d")) op_h2d();
+        else if (0 == strcmp(ltv_tok[0], "h2h")) op_h2h();
         else if (0 == strcmp(ltv_tok[0], "sc")) op_sc();
         else puts("bad-op");
         fflush(stdout);
